@@ -395,11 +395,23 @@ def spec_coherent(c, z, DM, ref_freq=None, chirp=None):
     F = opaque_op(ctx, "fft", g.data, 0)
     prod = A.elementwise(ctx, V.cmul, [F, ch], F.dtype)
     X = opaque_op(ctx, "ifft", prod, 0)
-    half_band = V.div(ctx, V.mul(g.bw.val, g.nchan), 2)
-    d_top = V.mul(delay_seconds(ctx, DM, V.add(g.cf.val, half_band), refq.val), g.sr.val)
-    d_bot = V.mul(delay_seconds(ctx, DM, V.sub(g.cf.val, half_band), refq.val), g.sr.val)
+    # statement: "restricted to the times for which no frequency of the band needed data outside the input
+    # (front and back cropped by the ceilings of the band-edge delays)".  The band is the set of absolute
+    # frequencies the transfer function is applied to: channel i is filtered as a baseband channel centred on
+    # its label, i.e. it covers label_i -/+ chan_bw/2, so the band runs from label_0 - chan_bw/2 to
+    # label_{n-1} + chan_bw/2.  For 'center' alignment (and every odd channel count) that is
+    # center_freq -/+ nchan*chan_bw/2; for 'bottom'/'top' with an even count it is half a channel lower/higher.
+    half_bw = V.div(ctx, g.bw.val, 2)
+    f_lo = V.sub(label(c, g, 0), half_bw)
+    f_hi = V.add(label(c, g, V.sub(g.nchan, 1)), half_bw)
+    al = g.attrs().get("freq_align")
+    if isinstance(al, str) and al != "center" and c.branch(V.eq(V.mod_int(ctx, g.nchan, 2), 0), "even channel count, labels not centred"):
+        c.tag("band-of-aligned-labels")
+    d_top = V.mul(delay_seconds(ctx, DM, f_hi, refq.val), g.sr.val)
+    d_bot = V.mul(delay_seconds(ctx, DM, f_lo, refq.val), g.sr.val)
     start = V.ceil_real(ctx, V.neg(V.vmin(0, V.vmin(d_top, d_bot))))
-    stop = V.sub(N, V.ceil_real(ctx, V.vmax(0, V.vmax(d_top, d_bot))))
+    # kept samples: start <= k < N - back crop; none when the crops cover the signal
+    stop = V.vmax(0, V.sub(N, V.ceil_real(ctx, V.vmax(0, V.vmax(d_top, d_bot)))))
     sl = SSlice(V.simp(start), V.simp(stop), None)
     a, b, st = A.slice_adjust(ctx, sl, N)
     attrs = g.attrs()
